@@ -3,6 +3,7 @@
 #include "vh.h"
 #include "src/log.c"
 #define SET_MODEL_CLEANUP_FN log_type_cleanup
+#define SET_MODEL_CLEANUP_FN2 log_destination_cleanup
 #include "spec/set_model.h"
 
 extern unsigned int g_out_len, g_other_stream_writes, g_stdout_fprintf;
@@ -166,5 +167,144 @@ void h_log_message(void)
         int debug_out = (in_msg.verbosity > 1) || (in_msg.verbosity == 1 && in_msg.sev >= LOG_WARNING);
         V_ASSERT((g_stdout_fprintf + g_out_len > 0) == (debug_out != 0), "C09: log text reaches the server channel only in debug mode (verbosity raised by -d)");
     }
+    V_CANARY();
+}
+
+
+/* ============================================ C18: the routing after a (re)scan is the section's
+ * real log_rescan_conf + log_attach_destinations + log_destination_open + log_rescan_type from an
+ * arbitrary previous routing: afterwards every (facility, severity) vector is exactly what the
+ * section's entries say, in order; destinations nobody references any more are closed once; and
+ * every entry carries a change hook through which an in-place edit of its value re-establishes
+ * the same.  log_parse_type_sevset is used through its contract (decided in the log_sevset jobs):
+ * the harness fixes, per entry, "unknown syntax" / facility / severity set. */
+#ifndef LR_CASE
+#define LR_CASE 0
+#endif
+struct { unsigned char err[2], ty[2], mask[2]; int v0null; int old_ref[2]; unsigned old_spec; } in_lr;
+static struct { struct set_node n; struct log_type t; } lr_type[2];           /* "*" and "t" */
+static struct { struct set_node n; struct conf_node_string s; } lr_c0, lr_c1s;
+static struct { struct set_node n; struct conf_node_string_list l; } lr_c1l;
+static struct conf_node_base *lr_child[2];
+static char *lr_list2[2];
+static struct log_destination *lr_closed[4]; static unsigned lr_n_closed, lr_opened;
+static struct log_destination_vtable lr_vt;
+
+static struct log_destination *lr_open(const char *args)
+{
+    struct set_node *n = calloc(1, sizeof(struct set_node) + sizeof(struct log_destination));
+    (void)args; V_ASSUME(n != NULL); lr_opened++;
+    return set_node_data(n);
+}
+static void lr_close(struct log_destination *self) { if (lr_n_closed < 4) lr_closed[lr_n_closed] = self; lr_n_closed++; }
+static struct log_destination *lr_mkdest(const char *name, int refcnt)
+{
+    struct log_destination *d = lr_open(NULL); size_t n = strlen(name) + 1;
+    d->name = malloc(n); V_ASSUME(d->name != NULL); memcpy(d->name, name, n);
+    d->vtbl = &lr_vt; d->refcnt = refcnt;
+    return d;
+}
+int model_parse_type_sevset(void **type, void *sevset, const char *name)
+{
+    unsigned k = (name == lr_child[1]->name);
+    V_ASSERT(name == lr_child[0]->name || name == lr_child[1]->name, "log_parse_type_sevset contract: called with an entry's name");
+    if (in_lr.err[k]) return 1;                                   /* unknown syntax */
+    *type = in_lr.ty[k] == 0 ? (void *)&lr_type[0].t : in_lr.ty[k] == 1 ? (void *)&lr_type[1].t : NULL;     /* "*", "t", unknown facility */
+    ((struct severity_bitset *)sevset)->bits[0] = in_lr.mask[k];
+    return 0;
+}
+void model_log_message(void *type, int sev, const char *format) { (void)type; (void)sev; (void)format; }
+
+/* the destinations entry k names, in order */
+static unsigned lr_entry_dests(unsigned k, const char *out[2])
+{
+    if (k == 0) { if (lr_c0.s.value) { out[0] = lr_c0.s.value; return 1; } return 0; }
+#if LR_CASE == 1
+    out[0] = lr_list2[0]; out[1] = lr_list2[1]; return 2;
+#else
+    out[0] = lr_c1s.s.value; return 1;
+#endif
+}
+static void lr_check_routing(const char *when)
+{
+    unsigned x, s, k, i;
+    (void)when;
+    for (x = 0; x < 2; x++) for (s = 0; s < LOG_NUM_SEVERITIES; s++) {
+        const char *want[5]; unsigned n = 0; int specified = 0;
+        struct log_destination_vector *v = &lr_type[x].t.logs[s];
+        for (k = 0; k < 2; k++) {
+            const char *d[2]; unsigned nd;
+            if (in_lr.err[k] || in_lr.ty[k] != x || !((in_lr.mask[k] >> s) & 1)) continue;
+            specified = 1;
+            nd = lr_entry_dests(k, d);
+            for (i = 0; i < nd; i++) want[n++] = d[i];
+        }
+        if (!specified && s >= LOG_WARNING && lr_type[x].t.default_target) want[n++] = lr_type[x].t.default_target;
+        V_ASSERT(v->used == n, "C18: a (facility, severity) pair has exactly the destinations the current section maps it to");
+        for (i = 0; i < 5; i++) if (i < n && i < v->used)
+            V_ASSERT(v->vec[i] && !strcmp(v->vec[i]->name, want[i]), "C18: ... those destinations, in section order");
+    }
+}
+
+void h_log_rescan(void)
+{
+    static struct conf_node_object root;
+    struct log_destination *da, *dold;
+    struct log_destination **pv;
+    unsigned i, live_old = 0, refd_a = 0, refd_old = 0, x, s;
+    V_IN(in_lr);
+    V_ASSUME(in_lr.ty[0] <= 2 && in_lr.ty[1] <= 2 && in_lr.mask[0] < 64 && in_lr.mask[1] < 64 && in_lr.old_spec < 64);
+    V_ASSUME(in_lr.old_ref[0] >= 0 && in_lr.old_ref[0] < 1000 && in_lr.old_ref[1] >= 0 && in_lr.old_ref[1] < 1000);
+    lr_vt.type_name = "g"; lr_vt.open = lr_open; lr_vt.close = lr_close; lr_vt.log = ghost_log;
+    /* facilities "*" < "t" */
+    memset(lr_type, 0, sizeof(lr_type));
+    lr_type[0].t.name = "*"; lr_type[1].t.name = "t";
+#if LR_CASE == 2
+    lr_type[1].t.default_target = "g:old";
+#endif
+    lr_type[0].n.next = &lr_type[1].n; lr_type[1].n.prev = &lr_type[0].n;
+    log_types.compare = set_compare_charp; log_types.cleanup = log_type_cleanup; log_types.root = &lr_type[0].n; log_types.count = 2;
+    log_default = &lr_type[0].t; log_core = NULL;
+    /* destination types: "g" */
+    {   static struct { struct set_node n; struct log_destination_vtable v; } vt;
+        vt.v = lr_vt; log_vtables.compare = set_compare_charp; log_vtables.root = &vt.n; log_vtables.count = 1; }
+    /* previous state: "g:a" and "g:old" are open and routed from t.warning */
+    da = lr_mkdest("g:a", in_lr.old_ref[0]); dold = lr_mkdest("g:old", in_lr.old_ref[1]); lr_opened = 0;
+    set_node(da)->next = set_node(dold); set_node(dold)->prev = set_node(da);
+    log_destinations.compare = set_compare_charp; log_destinations.cleanup = log_destination_cleanup; log_destinations.root = set_node(da); log_destinations.count = 2;
+    pv = malloc(4 * sizeof(*pv)); V_ASSUME(pv != NULL); pv[0] = da; pv[1] = dold;
+    lr_type[1].t.logs[LOG_WARNING].vec = pv; lr_type[1].t.logs[LOG_WARNING].size = 4; lr_type[1].t.logs[LOG_WARNING].used = 2;
+    lr_type[1].t.specified.bits[0] = in_lr.old_spec;
+    /* the section: entry 0 a string (possibly without value), entry 1 a string or a two-item list */
+    memset(&root, 0, sizeof(root)); memset(&lr_c0, 0, sizeof(lr_c0)); memset(&lr_c1s, 0, sizeof(lr_c1s)); memset(&lr_c1l, 0, sizeof(lr_c1l));
+    root.base.name = "logs"; root.base.type = CONF_OBJECT;
+    lr_c0.s.base.name = "e0"; lr_c0.s.base.type = CONF_STRING; lr_c0.s.base.parent = &root; lr_c0.s.value = in_lr.v0null ? NULL : "g:a";
+    lr_c1s.s.base.name = "e1"; lr_c1s.s.base.type = CONF_STRING; lr_c1s.s.base.parent = &root;
+    lr_c1s.s.value = (LR_CASE == 3) ? "g:a" : "g:b";
+    lr_list2[0] = "g:b"; lr_list2[1] = "g:a";
+    lr_c1l.l.base.name = "e1"; lr_c1l.l.base.type = CONF_STRING_LIST; lr_c1l.l.base.parent = &root;
+    lr_c1l.l.value.vec = lr_list2; lr_c1l.l.value.used = 2; lr_c1l.l.value.size = 2;
+    lr_child[0] = &lr_c0.s.base; lr_child[1] = (LR_CASE == 1) ? &lr_c1l.l.base : &lr_c1s.s.base;
+    {   struct set_node *n0 = &lr_c0.n, *n1 = (LR_CASE == 1) ? &lr_c1l.n : &lr_c1s.n;
+        n0->next = n1; n1->prev = n0; root.contents.root = n0; root.contents.count = 2; }
+    conf.root = &root;
+
+    log_rescan_conf(&root.base);                                     /* REAL */
+
+    lr_check_routing("after the scan");
+    /* destinations: referenced ones stay open, unreferenced ones are closed exactly once */
+    for (x = 0; x < 2; x++) for (s = 0; s < LOG_NUM_SEVERITIES; s++) for (i = 0; i < 4; i++)
+        if (i < lr_type[x].t.logs[s].used) { if (lr_type[x].t.logs[s].vec[i] == da) refd_a = 1; if (lr_type[x].t.logs[s].vec[i] == dold) refd_old = 1; }
+    for (i = 0; i < 4; i++) if (i < lr_n_closed) { if (lr_closed[i] == da) V_ASSERT(!refd_a, "C18: a destination still routed to is not closed"); if (lr_closed[i] == dold) { V_ASSERT(!refd_old, "C18: a destination still routed to is not closed"); live_old++; } }
+    V_ASSERT(refd_old || live_old == 1, "C18: a destination the new section no longer references is closed, once");
+    V_ASSERT(lr_n_closed <= 2, "C18: nothing is closed twice");
+    V_ASSERT(lr_child[0]->hook != NULL && lr_child[1]->hook != NULL, "C18: every entry of the section carries a change hook (full rescan on any change inside the section)");
+
+    /* an in-place edit of entry 1's value (config.c runs the edited node's hook): the routing follows */
+#if LR_CASE == 0
+    lr_c1s.s.value = "g:a";
+    if (lr_child[1]->hook) lr_child[1]->hook(lr_child[1]);          /* REAL hook */
+    lr_check_routing("after an in-place edit");
+#endif
     V_CANARY();
 }
